@@ -52,6 +52,11 @@ func genC03(r *Rng) *Plan {
 		// what the backend receives (identity headers, cookies) does not depend on whether requests are signed
 		opts["skip_request_signing"] = true
 	}
+	if r.Chance(1, 8) {
+		// "CookieName is still set globally, so we do not provide override behavior" (proxy_config.go): a key the options
+		// block does not document changes nothing about which cookie is the proxy's own
+		opts["cookiename"] = r.Pick("theme", "sid", "other")
+	}
 	cfg.Routes = []Route{routeFor(1, opts)}
 	if r.Chance(1, 2) {
 		// a deployment has several upstreams, each with its own skip list (or none): what one upstream lets
@@ -593,6 +598,13 @@ func genC18(r *Rng) *Plan {
 			}
 			if r.Chance(1, 4) {
 				beh.Multi = [][2]string{{"X-Frame-Options", "ALLOWALL"}, {"X-Frame-Options", "SAMEORIGIN"}}
+			}
+			if r.Chance(1, 6) {
+				// the upstream nominates the hardening headers as hop-by-hop: its own copies go, the proxy's stay
+				if beh.Headers == nil {
+					beh.Headers = map[string]string{}
+				}
+				beh.Headers["Connection"] = r.Pick("X-Frame-Options", "X-Content-Type-Options, X-XSS-Protection", "Strict-Transport-Security, x-frame-options")
 			}
 			if r.Chance(1, 5) {
 				beh.Status = r.Pick0(500, 404, 302, 204)
